@@ -404,9 +404,10 @@ Definition dispatch (name : str) (arg : sx) : sx :=
     (* arg: root status served(opt path) leaks *)
     sB (Spec.C02.ok (read_path (nth_sx 0 arg)) (as_Z (nth_sx 1 arg)) (read_opath (nth_sx 2 arg)) (as_bool (nth_sx 3 arg)))
   else if eqb name (lit "upload") then
-    (* arg: cfg fs req fault -> response + new fs *)
+    (* arg: cfg fs req fault tok -> response + new fs   (tok: the value of secrets.token_hex(8) in the run compared) *)
     let r := handle_upload (read_ucfg (nth_sx 0 arg)) (read_fs (nth_sx 1 arg)) (read_ureq (nth_sx 2 arg))
-                           (match as_list (nth_sx 3 arg) with [k] => Some (as_N k) | _ => None end) in
+                           (match as_list (nth_sx 3 arg) with [k] => Some (as_N k) | _ => None end)
+                           (as_str (nth_sx 4 arg)) in
     L [match fst r with UResp st m => L [sT "resp"; sZ st; A m] | URaise k => L [sT "raise"; A k] | UOom => L [sT "oom"] end;
        show_fs (snd r)]
   else if eqb name (lit "C14.ok") then
